@@ -184,7 +184,7 @@ func ruleR5_6(w *World, r *Report) {
 // R9.6: what AppendClause does to the constraint per literal class.
 func ruleR9_6(w *World, r *Report) {
 	r.Rule("R9.6", "in Solver.AppendClause a literal already true is removed and the degree lowered by its weight, a literal already false is removed only, an unbound literal is kept and the cursor advances", 3)
-	fn := w.Func("solver", "Solver.AppendClause")
+	fn, _ := appendClauseScanFn(w)
 	if fn == nil {
 		r.Unk("R9.6", "solver.(*Solver).AppendClause", "-", "method not found")
 		return
